@@ -12,7 +12,7 @@ head = subprocess.check_output(['git', '-C', '/repo', 'rev-parse', '--short', 'H
 results = []
 for pid in sorted(os.listdir(inc)):
     pdir = os.path.join(inc, pid)
-    if not os.path.isdir(pdir) or not (pid.startswith('C') or pid.startswith('R2C') or pid.startswith('R3C') or pid.startswith('R4C') or pid.startswith('R5C')): continue
+    if not os.path.isdir(pdir) or not (pid.startswith('C') or pid.startswith('R2C') or pid.startswith('R3C') or pid.startswith('R4C') or pid.startswith('R5C') or pid.startswith('R6C')): continue
     for m in sorted(os.listdir(pdir)):
         mdir = os.path.join(pdir, m)
         patch = os.path.join(mdir, 'patch.diff'); demo = os.path.join(mdir, 'demo.py')
